@@ -2,6 +2,7 @@ PROP_MODULES = {
     "C01": ["contracts.c01_ring"],
     "C02": ["contracts.c02_select"],
     "C03": ["contracts.c03_neurons"],
+    "C04": ["contracts.c04_synapses"],
     "C07": ["contracts.c07_traces"],
     "C08": ["contracts.c09_split", "contracts.c08_wiring"],
     "C09": ["contracts.c09_split", "contracts.c18_dastdp"],
